@@ -9,26 +9,26 @@ COMMON_NOTE = ("Trusted: Coq 8.16.1 kernel (coqc; coqchk -o in the thorough tier
                "differential testing; std atomics / Vec / ptr operations are modelled, not verified. The theorems are about coq/theories/Machine.v, a hand-written "
                "model tied to /repo on every run by lock-step replay and by evaluating the extracted checker on the implementation's traces.")
 
-PRE = 'About the hand-written model (coq/theories/Machine.v). Unless said otherwise every theorem below is for EVERY environment of the named class, every thread count, every per-thread program whose chunk sizes are usize values (wf_progs), every schedule, under the run-level hypothesis nowrap (no fetch_add of the run wraps the 64-bit counter; runs outside it are known findings F14/F16). known kinds = slice, vector, array, range under any adaptor; wrapped = the wrapper over an arbitrary iterator with any size hint and any crash point; all kinds = both. '
+PRE = 'About the hand-written model (coq/theories/Machine.v). Unless said otherwise every theorem below is for EVERY environment of the named class, every thread count, every per-thread program whose chunk sizes are usize values (wf_progs), every schedule, under the run-level hypothesis nowrap (no fetch_add of the run wraps the 64-bit counter; runs outside it are known findings F14/F16). known kinds = slice, vector, array, range under any adaptor; wrapped = the wrapper over an arbitrary iterator with any size hint and any crash point, FUSED OR NOT (e_gap: any set of calls of the wrapped next() that answer None although elements remain) unless the theorem carries the hypothesis `fused e`; all kinds = both. '
 
 # id -> (technique, level text, extra note)
 P = {
  "C01": ("Coq proof (inductive tiling invariants over all schedules: counter machine and ticket machine) + lock-step correspondence",
-         PRE + "c01_exactly_once (all kinds): check_prop 1 = no position is delivered twice (on every run, also with skips and panics) and, when the run has no skip and no panic, once the end has been reported and nothing is pending the deliveries tile the source. The extracted check_prop 1 judges the crate's traces on generated, DFS-enumerated and harness-chosen schedules.",
+         PRE + "c01_exactly_once (all kinds): check_prop 1 = no position is delivered twice (on every run, also with skips and panics) and, when the run has no skip and no panic, once the end has been reported and nothing is pending the deliveries tile the source. The extracted check_prop 1 judges the crate's traces on generated, DFS-enumerated and harness-chosen schedules. The theorem assumes `fused e`. For a wrapped iterator that is not fused: c01_no_duplicate_any_iterator (no position is moved out to two callers, owning or not), c01_yielded_exactly_once_any_iterator (owning; at a quiescent point with no buffered iterator kept, moved-out and destroyed positions tile [0, cursor): everything the wrapped iterator ever yielded is delivered or destroyed exactly once), c01_delivered_count_any_iterator (quiescent, no panic: as many elements delivered as the wrapped iterator yielded), c01_exactly_once_until_first_gap (check_prop 1 in full on every run in which no call of the wrapped next() has yet answered None prematurely).",
          "The no-loss clause is proved and checked only for runs without skip_to_end and without panics (with them the property itself does not demand it). The model executes one call of the wrapped next() as one step; justified by c07_mutual_exclusion."),
  "C02": ("Coq proof (per-event invariant; wrapped iterator: taken elements are [b, b+k) where b is the ticket) + lock-step correspondence",
-         PRE + "c02_index_fidelity (all kinds): chk_C02 = every reported index is the element's source position (single pulls, chunk offsets, ids_and_values, enumerate_for_each), on every run including runs with panics.",
+         PRE + "c02_index_fidelity (all kinds): chk_C02 = every reported index is the element's source position (single pulls, chunk offsets, ids_and_values, enumerate_for_each), on every run including runs with panics. The theorem assumes `fused e`; c02_index_fidelity_until_first_gap: the same for any wrapped iterator on every run up to its first premature None (after one, indices run ahead of positions: Examples.gap_hypotheses_hold).",
          "Elements are identified with their positions in the model: 'the element a sequential iteration would produce' is decided on the crate by values that are an injective non-monotone function of the position (correspondence only)."),
  "C03": ("Coq proof (per-event invariant, chunk arithmetic by lia; partial chunks of the ticket machine end at the source's end) + lock-step correspondence",
-         PRE + "c03_chunk_contract (all kinds): chk_C03 = a returned chunk is non-empty, not longer than requested, consecutive from its begin index, announces its exact length before and after partial consumption, and is short only at the end of the source; one-shot and buffered.",
+         PRE + "c03_chunk_contract (all kinds): chk_C03 = a returned chunk is non-empty, not longer than requested, consecutive from its begin index, announces its exact length before and after partial consumption, and is short only at the end of the source; one-shot and buffered. The theorem assumes `fused e`; c03_chunk_contract_until_first_gap: the same for any wrapped iterator up to its first premature None.",
          "chk_C03 does not constrain a pull that panicked, nor a buffered pull whose buffered_iter call is not in the trace. The slots of the wrapped iterator's re-used buffer are modelled."),
  "C04": ("Coq proof (tiling invariants; induction over the schedule for the quiescent prefix) + lock-step correspondence with call/return times",
-         PRE + "c04_linearizable_cursor (all kinds): check_prop 4 = no position twice, each thread receives increasing positions and a pull that starts after another returned receives larger positions (on every run), and, on runs without panics, at every point of the history where no call is pending the delivered positions are a gap-free prefix.",
+         PRE + "c04_linearizable_cursor (all kinds): check_prop 4 = no position twice, each thread receives increasing positions and a pull that starts after another returned receives larger positions (on every run), and, on runs without panics, at every point of the history where no call is pending the delivered positions are a gap-free prefix. The theorem assumes `fused e`; c04_linearizable_cursor_until_first_gap: the same for any wrapped iterator up to its first premature None.",
          "The sequential corollary (a single-threaded history equals the sequential iterator) is not stated as a theorem: it is the one-thread instance together with C02/C03."),
  "C05": ("Coq proof (monotone counter; completed flag / exhausted cursor are stable and every later pull is doomed not to take) + lock-step correspondence",
-         PRE + "c05_end_is_permanent (all kinds): chk_C05 = after an end report every later-starting pull reports the end and delivers nothing and every later length query reports zero / unknown.", ""),
+         PRE + "c05_end_is_permanent (all kinds): chk_C05 = after an end report every later-starting pull reports the end and delivers nothing and every later length query reports zero / unknown. c05_end_is_permanent holds for wrapped iterators that are NOT fused as well (src_env does not mention e_gap); c05_end_is_permanent_any_iterator states it for them explicitly (check_prop 5). The crate's non-fused histories run in lock step with the model.", ""),
  "C06": ("Coq proof (invariants with skip bookkeeping; wrapped iterator: skip raises the completed flag, which every later pull tests first) + lock-step correspondence",
-         PRE + "c06_skip_to_end (all kinds): check_prop 6 = chk_C06 on every run: after a returned skip_to_end later-starting pulls report the end and has_more is No; no position twice; index fidelity; per-thread order; any number of skips anywhere.",
+         PRE + "c06_skip_to_end (all kinds): check_prop 6 = chk_C06 on every run: after a returned skip_to_end later-starting pulls report the end and has_more is No; no position twice; index fidelity; per-thread order; any number of skips anywhere. The theorem assumes `fused e`; c06_skip_stops_any_iterator (any wrapped iterator: chk_C06_stop = after a returned skip later-starting pulls report the end and has_more is No), c06_skip_to_end_until_first_gap (check_prop 6 in full up to the first premature None).",
          "That elements delivered before the skip stay valid is the ledger of C08, not part of this checker. Found F13 (range skip stored the end value), repaired by a fix: commit."),
  "C07": ("Coq proof (ticket-protocol invariant => mutual exclusion; vector-clock invariant over the orderings extracted from the source => happens-before) + translator for the memory orderings + lock-step correspondence with orderings compared",
          "THE PROPERTY DOES NOT HOLD ON THE TREE WITHOUT RESTRICTION (known finding F14: a cumulative reservation of 2^64 or more wraps the reserved counter and two pullers enter the wrapped next() together); what is proved is its restriction to runs that do not wrap. " + PRE +
@@ -44,10 +44,10 @@ P = {
          PRE + "c10_known_kinds, c10_wrapped_iterator: chk_C10 = at every quiescent point (no call pending) into_seq_iter yields exactly the elements from the delivered prefix on, in order; after skip_to_end a suffix of the undelivered elements.",
          "chk_C10 is vacuous on runs in which an operation panicked before."),
  "C11": ("Coq proof (quiescent-state tiling + monotone reported length; for the wrapped iterator one more invariant layer over protocol, flag and coverage invariants) + lock-step correspondence",
-         PRE + "c11_known_kinds, c11_wrapped_iterator: chk_C11 = a query made and answered while nothing else is pending (and no panic so far) equals the number of elements still to be delivered (known length) or is unknown only for sources without an exact hint; after a single or one-shot pull reported the end the answer is zero; at any time a reported length never exceeds the smallest reported before; once zero has been reported every later-starting operation delivers nothing.",
+         PRE + "c11_known_kinds, c11_wrapped_iterator: chk_C11 = a query made and answered while nothing else is pending (and no panic so far) equals the number of elements still to be delivered (known length) or is unknown only for sources without an exact hint; after a single or one-shot pull reported the end the answer is zero; at any time a reported length never exceeds the smallest reported before; once zero has been reported every later-starting operation delivers nothing. c11_wrapped_iterator assumes `fused e` (an exact size hint of an iterator that ends early is not truthful); c11_wrapped_iterator_any_iterator: the same for every wrapped iterator without an exact hint, fused or not; c11_wrapped_iterator_until_first_gap: with any hint up to the first premature None.",
          "The exact size hint of the wrapped iterator is assumed truthful. The checker identifies Yes(0) with No; 'Maybe only for unknown size' is constrained at quiescent queries only."),
  "C12": ("Coq proof (loop accumulator invariant on both machines; permutation argument for fold) + lock-step correspondence",
-         PRE + "c12_loops (all kinds): check_prop 12 = closure invocations carry the right index shape, no position twice, index fidelity, end permanence (on every run), and on runs without skip and panic the deliveries tile the source once the end is reported and nothing is pending (a returned loop is an end report). c12_fold_combination (all kinds, complete runs without skip and panic): for every type with an associative and commutative operation and its neutral element and every f, folding what each thread was handed and combining the per-thread results equals the fold of f over the source positions.", ""),
+         PRE + "c12_loops (all kinds): check_prop 12 = closure invocations carry the right index shape, no position twice, index fidelity, end permanence (on every run), and on runs without skip and panic the deliveries tile the source once the end is reported and nothing is pending (a returned loop is an end report). c12_fold_combination (all kinds, complete runs without skip and panic): for every type with an associative and commutative operation and its neutral element and every f, folding what each thread was handed and combining the per-thread results equals the fold of f over the source positions. Both theorems assume `fused e`; c12_loop_shape_any_iterator (index shape and end permanence for any wrapped iterator), c12_loops_until_first_gap (check_prop 12 in full up to the first premature None).", ""),
  "C13": ("Coq proof (the model gives the adaptors no behaviour of their own; the adaptors' source is pinned to the reviewed forwarding code by a translator; ledger theorem for borrowed sources) + twin lock-step correspondence on the crate",
          PRE + "c13_adaptor_transparent (every environment, no hypothesis): the run and the end of life of the model under cloned()/copied() equal those of the underlying iterator as whole configurations -- true by construction (step never reads e_adaptor). c13_adaptors_are_the_reviewed_forwarders: the list of every method of Cloned / Copied / their buffered chunks with its body, regenerated from the source on every run (tools/extract_adaptors.py), equals the reviewed list in which every method forwards to the underlying iterator and clones / copies what comes back, and fetch_one is not overridden. c13_source_untouched (known kinds, borrowed) and c13_borrowed_source_untouched (every kind whose elements are not owned, no hypothesis on the run): no event reports a destroyed element. On the crate every adaptor history is also run on an identical underlying iterator under the same schedule and the event streams must be equal.",
          "That the delivered values are clones of exactly the elements is decided on the crate only (values are positions in the model)."),
@@ -64,7 +64,7 @@ P = {
          PRE + "c17_runs_mode_independent / c17_end_of_life_mode_independent (all kinds): the run and the end of life of the model are the same configuration whatever the overflow mode (Checked: overflow panics; Wrapping). c17_pull_same_in_both_modes (known kinds): the same for a single pull, for all inputs. c17_no_panic_known_kinds / c17_no_panic_wrapped_iterator (wrapped: e_crash = None), for plain_progs without zero chunk sizes: nothing panics. On the crate identical histories are executed by the debug and the release harness and compared with the model in both modes, with the drop ledger.",
          "Documented preconditions of the std operations the crate builds on are represented only through the model's ledger and the absence of aborts in the debug profile (correspondence only)."),
  "C18": ("Coq proof (crash points are part of the environment and of the programs: invariants, ledgers and progress theorems quantify over them) + fault injection at every crash point on the crate with hang detection and drop ledger",
-         PRE + "c18_no_duplicate (all kinds, every crash point of the wrapped next() and of the closures): no position is delivered twice. c18_others_return_known_kinds / c18_others_return_wrapped_iterator: the C09 theorems, whose environments include the crash points. c18_ledger_known_kinds (run and end of life) and c18_ledger_wrapped_iterator (run; the end of life is c08_wrapped_iterator_end_of_life, which assumes the buffered iterators were dropped): chk_C08. On the crate the generator injects a panic at every position, the scheduler detects calls that never return, chk_C08, chk_C02 and 'no position twice' judge the traces.",
+         PRE + "c18_no_duplicate (all kinds, every crash point of the wrapped next() and of the closures): no position is delivered twice. c18_others_return_known_kinds / c18_others_return_wrapped_iterator: the C09 theorems, whose environments include the crash points. c18_ledger_known_kinds (run and end of life) and c18_ledger_wrapped_iterator (run; the end of life is c08_wrapped_iterator_end_of_life, which assumes the buffered iterators were dropped): chk_C08. On the crate the generator injects a panic at every position, the scheduler detects calls that never return, chk_C08, chk_C02 and 'no position twice' judge the traces. c18_no_duplicate assumes `fused e`; c18_no_duplicate_any_iterator: no position is moved out to two callers for any wrapped iterator, fused or not, at every crash point.",
          "Panics of an element's clone are exercised on the crate only through the closure crash points, not as a separate crash kind of the model (partial on that clause)."),
  "C19": ("Coq proof (family of iterators as a list of configurations: non-interference; clone copies the position; a clone behaves like an iterator, by simulation; ledger for the borrowed source) + multi-iterator histories on the crate projected onto single iterators",
          PRE + "c19_iterators_are_independent (no hypothesis): in any interleaved history of steps and clonings the configuration of each iterator is the one it reaches alone under the steps taken on it -- true by construction of the family model. c19_clone_starts_at_current_position. c19_clone_behaves_like_an_iterator (slices and ranges, clone taken at any position k < 2^64): no position twice, nothing below min(k, len), index fidelity, chunk contract, end permanence -- the clone's run is the tail of a run from position 0 in which an extra thread consumed the prefix. c19_source_left_intact / c19_borrowed_source_untouched: no event reports a destroyed element. On the crate: histories over 1-2 fresh iterators and the clones that 1-3 threads make at arbitrary points; every single iterator's history is projected out and replayed on the single-iterator model from the position the clone read; a clone must read the original's counter exactly once, start there and write nothing to the original; the address of every delivered reference is compared with the collection's element; the collection is re-read; a run-time probe clones through a shared reference with a non-Clone element type.",
